@@ -282,11 +282,17 @@ def l4(e: Engine, rep: Report):
             return n.ast.func.attr
         return None
 
-    def is_super(n: Node, name):
-        return n.kind == 'call' and isinstance(n.ast.func, ast.Attribute) \
-            and n.ast.func.attr == name and \
-            isinstance(n.ast.func.value, ast.Call) and \
-            ast.unparse(n.ast.func.value.func) == 'super'
+    def is_super(n: Node, name, g=None):
+        # super().name(...), also when the bound method was first put in a
+        # local / handed to a helper that calls it
+        if n.kind != 'call':
+            return False
+        f = n.ast.func
+        if g is not None and isinstance(f, ast.Name):
+            f, _ = common.origin(g, f, n.frame)
+        return isinstance(f, ast.Attribute) and f.attr == name and \
+            isinstance(f.value, ast.Call) and \
+            ast.unparse(f.value.func) == 'super'
     for name, (op, cnt, order) in DEQUE_SPEC.items():
         where = DEQUE + '.' + name
         if name not in c.methods:
@@ -295,9 +301,10 @@ def l4(e: Engine, rep: Report):
                     'changes size without the semaphore following' % name)
             continue
         ctx = e.method_ctx(DEQUE, name)
-        g = e.build(ctx, raises=lambda b, n, r: set())
+        g = e.build(ctx, raises=lambda b, n, r: set(),
+                    inline=e.inline_same_self(), max_depth=3)
         rep.functions.add(where)
-        sup = [n for n in g.nodes if is_super(n, name)]
+        sup = [n for n in g.nodes if is_super(n, name, g)]
         other = 'acquire' if op == 'release' else 'release'
         cs = dataflow.count_events(g, lambda n: 1 if sema_op(n) == op
                                    else 0).get(g.exit.id)
@@ -342,58 +349,92 @@ def l4(e: Engine, rep: Report):
                       '%s acquires the semaphore without blocking: it pops '
                       'from an empty deque instead of waiting' % name,
                       loc=ctx.func.loc(), reason='blocking acquire')
-    # extend / extendleft: one release per added element
+    # extend / extendleft: one release per added element - the number of
+    # releases is len(self) after the super call minus len(self) before it
     for name in ('extend', 'extendleft'):
         where = DEQUE + '.' + name
         if name not in c.methods:
             rep.bad('L4', where, 'override present',
                     'BlockingDeque no longer overrides %s' % name)
             continue
-        fn = c.methods[name].node
+        ctx = e.method_ctx(DEQUE, name)
+        g = e.build(ctx, raises=lambda b, n, r: set(),
+                    inline=e.inline_same_self(), max_depth=3)
+        sup = [n for n in g.nodes if is_super(n, name, g)]
+        before = dataflow.must_events_before(
+            g, lambda n: ['sup'] if n in sup else [])
+
+        def when(node):
+            st = before.get(node.id)
+            if st is None:
+                return None
+            return 'after' if 'sup' in st else 'before'
+
+        def enter_of(frame):
+            for n in g.nodes:
+                if n.kind == 'call_enter' and \
+                        n.extra.get('callee_frame') is frame:
+                    return n
+            return None
+
+        def is_len_self(x, frame):
+            return isinstance(x, ast.Call) and \
+                isinstance(x.func, ast.Name) and x.func.id == 'len' and \
+                len(x.args) == 1 and \
+                canon(x.args[0], frame) == 'self'
+
+        def shape(x, frame, at, depth=0):
+            """'before' / 'after': len(self) taken before / after the super
+            call; ('diff',): after - before; None: something else.  `at` is
+            the node at which an inline expression is evaluated."""
+            if depth > 6 or x is None:
+                return None
+            if is_len_self(x, frame):
+                return when(at) if at is not None else None
+            if isinstance(x, ast.BinOp) and isinstance(x.op, ast.Sub):
+                l = shape(x.left, frame, at, depth + 1)
+                r = shape(x.right, frame, at, depth + 1)
+                return ('diff',) if (l, r) == ('after', 'before') else None
+            if isinstance(x, ast.Name):
+                fn = frame.ctx.func
+                stores = [d for d in g.of_kind('stmt')
+                          if d.frame is frame and
+                          isinstance(d.ast, ast.Assign) and any(
+                              isinstance(t, ast.Name) and t.id == x.id
+                              for t in d.ast.targets)]
+                anystore = any(isinstance(y, ast.Name) and y.id == x.id and
+                               isinstance(y.ctx, ast.Store)
+                               for y in walk_own(fn.node))
+                if x.id in fn.params and not anystore and \
+                        x.id in frame.arg_exprs:
+                    a, af = frame.arg_exprs[x.id]
+                    return shape(a, af, enter_of(frame), depth + 1)
+                if len(stores) == 1:
+                    return shape(stores[0].ast.value, frame, stores[0],
+                                 depth + 1)
+            return None
         ok = False
-        # names assigned from len(self) before / after the super call
-        before_len, after_len = set(), set()
-        seen_super = False
-        for s_ in fn.body:
-            t = ast.unparse(s_)
-            if 'super(' in t and '.%s(' % name in t:
-                seen_super = True
-            if isinstance(s_, ast.Assign) and \
-                    isinstance(s_.targets[0], ast.Name) and \
-                    'len(self)' in ast.unparse(s_.value):
-                (after_len if seen_super else before_len).add(
-                    s_.targets[0].id)
-                # differences of the two are as good as the pair
-                if seen_super and any(nm in ast.unparse(s_.value)
-                                      for nm in before_len):
-                    before_len.add(s_.targets[0].id)
-            elif isinstance(s_, ast.Assign) and \
-                    isinstance(s_.targets[0], ast.Name) and seen_super:
-                used = {x.id for x in ast.walk(s_.value)
-                        if isinstance(x, ast.Name)}
-                if used & before_len and used & after_len:
-                    before_len.add(s_.targets[0].id)
-                    after_len.add(s_.targets[0].id)
-        for n in walk_own(fn):
-            if isinstance(n, ast.For) and isinstance(n.iter, ast.Call) and \
-                    ast.unparse(n.iter.func) == 'range':
-                rel = [x for s_ in n.body for x in ast.walk(s_)
-                       if isinstance(x, ast.Call) and
-                       ast.unparse(x.func) == 'self.sema.release']
-                used = {x.id for a in n.iter.args for x in ast.walk(a)
-                        if isinstance(x, ast.Name)}
-                after_super = False
-                for s_ in fn.body:
-                    t = ast.unparse(s_)
-                    if 'super(' in t and '.%s(' % name in t:
-                        after_super = True
-                    if s_ is n:
-                        break
-                if len(rel) == 1 and used & before_len and \
-                        used & after_len and after_super:
-                    ok = True
+        for lp in g.of_kind('iter'):
+            it = lp.ast.iter if isinstance(lp.ast, ast.For) else None
+            if not (isinstance(it, ast.Call) and
+                    isinstance(it.func, ast.Name) and it.func.id == 'range'):
+                continue
+            counts = common.per_iteration_counts(
+                g, lp, lambda n: 1 if sema_op(n) == 'release' else 0)
+            if counts != frozenset([1]) or when(lp) != 'after':
+                continue
+            a = it.args
+            if len(a) == 2 and shape(a[0], lp.frame, lp) == 'before' and \
+                    shape(a[1], lp.frame, lp) == 'after':
+                ok = True
+            elif len(a) == 1 and shape(a[0], lp.frame, lp) == ('diff',):
+                ok = True
+        # no release outside such a loop
+        stray = [n for n in g.nodes if sema_op(n) in ('release', 'acquire')
+                 and not any(sc.kind == 'loop' for sc in n.scopes)]
         rep.evaluations += 1
-        rep.check(ok, 'L4', where, 'one release per added element',
+        rep.check(ok and not stray and len(sup) >= 1, 'L4', where,
+                  'one release per added element',
                   '%s does not release the semaphore once per element '
                   'actually added (len before/after the super call)' % name,
                   loc=c.methods[name].loc(),
@@ -402,17 +443,25 @@ def l4(e: Engine, rep: Report):
     where = DEQUE + '.clear'
     ok = False
     if 'clear' in c.methods:
-        fn = c.methods['clear'].node
-        has_super = any('super(' in ast.unparse(s) and '.clear(' in
-                        ast.unparse(s) for s in fn.body)
-        for n in walk_own(fn):
-            if isinstance(n, ast.While) and 'locked()' in ast.unparse(
-                    n.test) and isinstance(n.test, ast.UnaryOp):
-                acq = [x for s in n.body for x in ast.walk(s)
-                       if isinstance(x, ast.Call) and
-                       ast.unparse(x.func) == 'self.sema.acquire']
-                if acq and has_super:
-                    ok = True
+        ctx = e.method_ctx(DEQUE, 'clear')
+        g = e.build(ctx, raises=lambda b, n, r: set(),
+                    inline=e.inline_same_self(), max_depth=3)
+        has_super = any(is_super(n, 'clear', g) for n in g.nodes)
+        for t in g.of_kind('test'):
+            if not ('locked()' in ast.unparse(t.ast)):
+                continue
+            wl = [sc for sc in t.scopes if sc.kind == 'loop' and
+                  isinstance(sc.ast, ast.While)]
+            if not wl or wl[-1].ast.test is not t.ast and \
+                    not any(x is t.ast for x in ast.walk(wl[-1].ast.test)):
+                continue
+            if not isinstance(wl[-1].ast.test, ast.UnaryOp):
+                continue
+            acq = [n for n in g.nodes if sema_op(n) == 'acquire' and any(
+                sc.kind == 'loop' and sc.ast is wl[-1].ast
+                for sc in n.scopes)]
+            if acq and has_super:
+                ok = True
     rep.evaluations += 1
     rep.check(ok, 'L4', where, 'clear drains the semaphore',
               'clear() empties the deque without draining the semaphore: '
